@@ -11,7 +11,8 @@ Spec: `BehSound` / `ArgsContra` (Spec/SigAssignSpec.lean) over CPython's binder 
 (Spec/CpyBind.lean).  `E` = expected header (`self`), `A` = actual header (`other`).
 
 The code does **not** satisfy the full statement; the exception classes are
-`D07_posKwClash`, `D07_starKwClash` (behavioural) and `D07_kwShadow` (typed).
+`D07_posKwClash` and `D07_starKwClash`. A third, typed class `kwShadow` was repaired by /repo
+commit d699eb1 (model updated; regression theorem `kwShadow_fixed`).
 -/
 namespace Pya.C07
 
@@ -42,19 +43,20 @@ theorem sig_assign_sound_partial (R : TyRel τ) (E A : TDefSig τ) (hA : A.WF)
   obtain ⟨n, ks⟩ := c
   exact nf_sound R E A hA hacc (by simpa using h1) (by simpa using h2) n ks hc
 
-/-- **Parameter contravariance and return covariance outside the exception classes** — for any
+/-- **Parameter contravariance and return covariance outside `posKwClash`** — for any
 supertype relation `sup` for which the annotation-level answers `R` are sound (`RelSound`): in an
-accepted pair outside `posKwClash` and `kwShadow`, every argument of every call the expected header
-binds lands, in the actual header, on a parameter whose annotation is a supertype of the annotation
-it lands on in the expected header; and the actual return annotation is a subtype of the expected
-one. All call shapes, no bound. -/
+accepted pair outside `posKwClash`, every argument of every call the expected header binds lands,
+in the actual header, on a parameter whose annotation is a supertype of the annotation it lands
+on in the expected header; and the actual return annotation is a subtype of the expected one. All
+call shapes, no bound. (`starKwClash` is not needed here: it only makes the actual header reject
+the call. Since the repair d699eb1 there is no typed exception class left.) -/
 theorem sig_assign_variance_partial (R : TyRel τ) (sup : τ → τ → Prop) (hR : RelSound R sup)
     (E A : TDefSig τ) (hE : E.WF) (hA : A.WF)
-    (h1 : ¬ D07_posKwClash E A = true) (h3 : ¬ D07_kwShadow R E A = true)
+    (h1 : ¬ D07_posKwClash E A = true)
     (hacc : sigCanAssign R E.tsig A.tsig = true) :
     ArgsContra sup E A ∧ sup A.ret E.ret := by
   rw [sig_eq_nf] at hacc
-  exact ⟨nf_contra R sup hR E A hE hA hacc (by simpa using h1) (by simpa using h3),
+  exact ⟨nf_contra R sup hR E A hE hA hacc (by simpa using h1),
     hR.asg _ _ (nf_ret R E A hacc)⟩
 
 /-- **The two behavioural classes are exact.** For every pair pyanalyze accepts (both headers
@@ -115,10 +117,10 @@ theorem tagIncl_members (S T : Tag) (hS : S ≠ .any) (hT : T ≠ .any) (h : tag
 
 /-- The typed theorem instantiated with the regenerated tables of the tag universe. -/
 theorem sig_assign_variance_tags (E A : TDefSig Tag) (hE : E.WF) (hA : A.WF)
-    (h1 : ¬ D07_posKwClash E A = true) (h3 : ¬ D07_kwShadow liveTyRel E A = true)
+    (h1 : ¬ D07_posKwClash E A = true)
     (hacc : sigCanAssign liveTyRel E.tsig A.tsig = true) :
     ArgsContra tagSup E A ∧ tagSup A.ret E.ret :=
-  sig_assign_variance_partial liveTyRel tagSup liveTyRel_sound E A hE hA h1 h3 hacc
+  sig_assign_variance_partial liveTyRel tagSup liveTyRel_sound E A hE hA h1 hacc
 
 /-! ## Witnesses: the full statements are false, one concrete pair per exception class -/
 
@@ -160,29 +162,49 @@ theorem sig_assign_sound_full_false' : ¬ SigAssignSoundFull liveTyRel := by
   rw [w.2.2.2.2.2.2] at this
   cases this
 
-/-- `def f(b: float)` ← `def g(*c, b: int = 0, **a)`; in `f(b=1.5)` the argument lands on `b: int`. -/
+/-- Regression pair of the repaired class `kwShadow` (/repo d699eb1):
+`def f(b: float)` ← `def g(*c, b: int = 0, **a)`; in `f(b=1.5)` the argument would land on `b: int`. -/
 def wShadowE : TDefSig Tag := { po := [], pk := [⟨"b", false, .float⟩], vp := none, ko := [], vk := none, ret := .any }
 def wShadowA : TDefSig Tag :=
   { po := [], pk := [], vp := some ("c", .any), ko := [⟨"b", true, .int⟩], vk := some ("a", .any), ret := .any }
+/-- The same actual header with a compatible keyword-only parameter: `b: float = 0`. -/
+def wShadowA' : TDefSig Tag :=
+  { po := [], pk := [], vp := some ("c", .any), ko := [⟨"b", true, .float⟩], vk := some ("a", .str), ret := .any }
 
-theorem witness_kwShadow :
-    wShadowE.WF ∧ wShadowA.WF ∧ sigCanAssign liveTyRel wShadowE.tsig wShadowA.tsig = true ∧
-    D07_kwShadow liveTyRel wShadowE wShadowA = true ∧ D07_posKwClash wShadowE wShadowA = false ∧
-    D07_starKwClash wShadowE wShadowA = false ∧
-    cpyBind wShadowE.shape ⟨0, ["b"]⟩ = true ∧ cpyBind wShadowA.shape ⟨0, ["b"]⟩ = true ∧
-    kwTy wShadowE "b" = some .float ∧ kwTy wShadowA "b" = some .int ∧ tagIncl .float .int = false := by
+/-- **Regression (was `witness_kwShadow`).** The pair is now rejected; the keyword would land on
+`b: int` (`kwTy`), which is why it has to be. With a compatible keyword-only parameter the pair is
+accepted — whatever the `**kwargs` annotation says, since the keyword never lands there. -/
+theorem kwShadow_fixed :
+    sigCanAssign liveTyRel wShadowE.tsig wShadowA.tsig = false ∧
+    kwTy wShadowE "b" = some .float ∧ kwTy wShadowA "b" = some .int ∧ tagIncl .float .int = false ∧
+    sigCanAssign liveTyRel wShadowE.tsig wShadowA'.tsig = true ∧ kwTy wShadowA' "b" = some .float := by
   decide
 
-/-- The typed full statement is false. -/
+/-- `def f(x: int, /, **kw: str)` ← `def g(a: int, **kw: str)`: the typed face of `posKwClash`
+(`a` is exempted from the `**kw` comparison through `consumed_required_pos_only`); in `f(1, a="s")`
+the keyword lands in `**kw: str` for `f` and on `a: int` for `g`. -/
+def wPosKwTE : TDefSig Tag :=
+  { po := [⟨"x", false, .int⟩], pk := [], vp := none, ko := [], vk := some ("kw", .str), ret := .any }
+def wPosKwTA : TDefSig Tag :=
+  { po := [], pk := [⟨"a", false, .int⟩], vp := none, ko := [], vk := some ("kw", .str), ret := .any }
+
+theorem witness_posKwClash_typed :
+    wPosKwTE.WF ∧ wPosKwTA.WF ∧ sigCanAssign liveTyRel wPosKwTE.tsig wPosKwTA.tsig = true ∧
+    D07_posKwClash wPosKwTE wPosKwTA = true ∧
+    cpyBind wPosKwTE.shape ⟨1, ["a"]⟩ = true ∧
+    kwTy wPosKwTE "a" = some .str ∧ kwTy wPosKwTA "a" = some .int ∧ tagIncl .str .int = false := by
+  decide
+
+/-- The typed full statement is false (through `posKwClash`, the only class it needs). -/
 theorem sig_assign_variance_full_false : ¬ SigAssignVarianceFull liveTyRel tagSup := by
   intro h
-  have w := witness_kwShadow
-  obtain ⟨hc, _⟩ := h wShadowE wShadowA w.1 w.2.1 w.2.2.1
-  obtain ⟨S, T, hS, hT, hST⟩ := (hc ⟨0, ["b"]⟩ w.2.2.2.2.2.2.1).2 "b" (by simp)
-  rw [w.2.2.2.2.2.2.2.2.1] at hS
-  rw [w.2.2.2.2.2.2.2.2.2.1] at hT
+  have w := witness_posKwClash_typed
+  obtain ⟨hc, _⟩ := h wPosKwTE wPosKwTA w.1 w.2.1 w.2.2.1
+  obtain ⟨S, T, hS, hT, hST⟩ := (hc ⟨1, ["a"]⟩ w.2.2.2.2.1).2 "a" (by simp)
+  rw [w.2.2.2.2.2.1] at hS
+  rw [w.2.2.2.2.2.2.1] at hT
   cases hS; cases hT
-  rw [tagSup, w.2.2.2.2.2.2.2.2.2.2] at hST
+  rw [tagSup, w.2.2.2.2.2.2.2] at hST
   cases hST
 
 /-! ## Non-vacuity: the hypotheses are met by a pair using every parameter kind, annotated
@@ -198,13 +220,12 @@ def exA : TDefSig Tag :=
 
 example : exE.WF ∧ exA.WF := by decide
 example : sigCanAssign liveTyRel exE.tsig exA.tsig = true := by decide
-example : ¬ D07_posKwClash exE exA = true ∧ ¬ D07_starKwClash exE exA = true ∧
-    ¬ D07_kwShadow liveTyRel exE exA = true := by decide
+example : ¬ D07_posKwClash exE exA = true ∧ ¬ D07_starKwClash exE exA = true := by decide
 example : cpyBind exE.shape ⟨4, ["d", "z"]⟩ = true := by decide      -- f(1, 2, 3, 4, d=True, z=5)
 example : cpyBind exA.shape ⟨4, ["d", "z"]⟩ = true :=
   sig_assign_sound_partial liveTyRel exE exA (by decide) (by decide) (by decide) (by decide) _ (by decide)
 example : sigCanAssign liveTyRel exA.tsig exE.tsig = false := by decide  -- and the converse pair is rejected
-example : ovCanAssign liveTyRel [exE.tsig, wShadowE.tsig] [wShadowA.tsig, exA.tsig] = true := by decide
+example : ovCanAssign liveTyRel [exE.tsig, wShadowE.tsig] [wShadowA'.tsig, exA.tsig] = true := by decide
 
 /-- The tags as value terms of the shared membership model (Spec/Mem.lean). -/
 def Tag.cls : Tag → Cls
